@@ -16,7 +16,13 @@ if rnd:
     if prev:
         avoid = "\n\nEarlier developers already tried the following changes; yours must use DIFFERENT mechanisms and code locations, and exercise a different part of the property's statement:\n" + "\n".join(prev)
 hint = ""
-if rnd in ("r4", "r5"):
+if rnd == "r5":
+    hint = ("\n\nFor this round, look especially at: failure and clean-up paths (what state is left behind when an operation fails half-way, and what a LATER operation then sees); "
+            "the less common value types in scope of the property (bytes, range, tuple, struct, module, bound methods, string iterables such as elems()/codepoints(), floats such as -0.0/inf/nan, None); "
+            "scenarios with several modules or several executions on one thread (load, a module using values of an earlier module, thread re-use); "
+            "and code shared by two features where a change that is right for one is wrong for the other. Prefer bugs that return a plausible but wrong result or leave wrong state over bugs that crash. "
+            "Make bug a and bug b differ from each other in kind, and from every earlier change listed at the end.")
+elif rnd in ("r4",):
     hint = ("\n\nFor this round, look especially at parts of the property's statement and of the anchored code that the earlier changes (listed at the end) did NOT touch: "
             "rarely used entry points of the Go API (host-side use: Thread options, Program methods, iterator protocols, Freeze, Unpack helpers), non-default dialect options, "
             "interactions between two features that each work alone, state carried from one operation to a later one, and boundary values of internal encodings. "
